@@ -494,14 +494,18 @@ _ADDED12 = {
     "C02": " (VS3) a back-end walk that follows ResolvedDefinition keeps no set keyed by GetQualifiedName(): instantiations of one generic share that name; (NH1, CS1) registered here too. (NL3) see C16.",
     "C03": " (S1) registered here too: an end-of-stream marker is emitted only under the reference guards; (ON1) see C19; (PM3) see C17.",
     "C08": " (VS3) see C02. (AL2) now also sees a switch inside a local closure whose last statement aborts (fix 7bf9700: the MATLAB twin of 3bae236).",
-    "C09": " (OK1) two results of a (T, bool) function whose verdict was discarded are never compared with each other (both may hold the function's \"nothing\" value). (ST2) see C11.",
+    "C09": " (OK1) two results of a (T, bool) function whose verdict was discarded are never compared with each other (both may hold the function's \"nothing\" value). (ST2) see C11. (MK2) see C19.",
     "C14": " (CW1) registered here too: the C++ integer overloads dispatch by width and signedness; (VS3) see C02; (PM3) see C17.",
     "C17": " (PM3) outside __init__ no method of a Python *Serializer / *Converter stores on self anything computed from one of its arguments.",
-    "C19": " (ON1) the Python back end emits no bare truthiness test of a formatted value (`if %s:`): presence is tested with `is None`; (OK1) see C09.",
+    "C19": " (ON1) the Python back end emits no bare truthiness test of a formatted value (`if %s:`): presence is tested with `is None`; (OK1) see C09. (MK2) a map of node pointers held in a context struct is not indexed by the node's own Name (unique within its parent only).",
     "C20": " (I1) registered here too: an import cycle is reported instead of wedging the watcher. (TR1) see C10.",
     "C16": " (NL3, when nlohmann/json.hpp is installed) in the C++ NDJSON ReadProtocolValue every getline has its result tested and eof() is never consulted (eofbit is also set by the successful read of a cut-off last line).",
-    "C11": " (ST2) in the build of the symbol table every path through the branch for a name that is already defined reports to the ErrorSink.",
+    "C11": " (ST2) in the build of the symbol table every path through the branch for a name that is already defined reports to the ErrorSink. (KU1) see C18.",
     "C10": " (AY1) no hand-written YAML decoder reads yaml.Node.Alias without a set of visited nodes; (TR1) a function that calls itself on a *PackageInfo without a visited set recurses through Imports only, never through Versions; (AL2) registered here too (fix 7bf9700).",
+    "C18": " (KU1) the koanf round trip of the --config overrides is decoded into the object that was loaded (fields tagged yaml:\"-\" — every imported package's FilePath — survive only then).",
+    "C04": " (A9) every assignment to a PreviousSchema field is a direct call of GetProtocolSchemaString (no structure marshalled after later passes renamed shared nodes).",
+    "C05": " (A9) see C04.",
+    "C15": " (A9) see C04.",
 }
 for _src in (_ADDED, _ADDED3, _ADDED4, _ADDED5, _ADDED6, _ADDED7, _ADDED8, _ADDED9, _ADDED10, _ADDED11, _ADDED12):
     for _k, _v in _src.items():
